@@ -315,3 +315,40 @@ func vh_C10_UtilInstance() {
 	}
 	vfReach("end")
 }
+
+// a subscription without a callback, registered anywhere in the list, neither receives anything nor keeps the others
+// (or a publisher mapped afterwards) from being served exactly once, in order
+func vh_C10_SilentSubscription() {
+	p := PublisherNewGenerics[int]()
+	n := vfRange("n", 1, 3)
+	silentAt := vfRange("silent-at", 0, n)
+	var order []int
+	var mapped []int
+	withMap := false
+	for i := 0; i <= n; i++ {
+		if i == silentAt {
+			p.Subscribe(Subscription[int]{})
+			if vfChoose("map-after-silent", 2) == 1 {
+				withMap = true
+				p.Map(func(v int) int { return vfFn("F", v) }).Subscribe(Subscription[int]{OnNext: func(v int) { mapped = append(mapped, v) }})
+			}
+		}
+		if i < n {
+			id := i
+			p.Subscribe(Subscription[int]{OnNext: func(v int) { order = append(order, id) }})
+		}
+	}
+	v := vfInt("v")
+	vfNoPanic("nopanic", func() { p.Publish(v) })
+	vfAssert("others-exactly-once", len(order) == n)
+	for i := 0; i < len(order) && i < n; i++ {
+		vfAssert("subscription-order", order[i] == i)
+	}
+	if withMap {
+		vfAssert("mapped-count", len(mapped) == 1)
+		if len(mapped) == 1 {
+			vfAssert("mapped-value", mapped[0] == vfFn("F", v))
+		}
+	}
+	vfReach("end")
+}
